@@ -306,6 +306,19 @@ def cond_facts(fn, cid, truth):
     t = fn.term(cid)
     if t[0] == "const":
         return set()
+    if k == "DeclRefExpr" and t[0] == "var":
+        # a named condition (`const bool tooLong = n > max; if (tooLong) ...`): the facts of what it names
+        v = fn.local_value_at(t, cid)
+        if v is not None:
+            from .prove import term_cond_facts
+            for _ in range(4):
+                v2 = fn.through_locals_at(v, cid)
+                if v2 == v:
+                    break
+                v = v2
+            fs = term_cond_facts(v, truth)
+            if fs:
+                return fs
     if k in CALLS and (t[0] == "op" or (t[0] == "un" and t[1] == "!")):
         # a call that is read as the expression it returns (single-return helper): the expression's own facts
         from .prove import term_cond_facts
